@@ -180,8 +180,11 @@ def run_support(rng, obs):
         pairs = set()
         for _ in range(rng.randint(1, 3)):
             i, j = sorted(rng.sample(nodes, 2)); pairs.add((i, j))
-        ys, yw = mm.impose_collapse(set(pairs), list(x), list(w))
-        obs.desc['pairs'] = sorted(pairs)
+        given = set(pairs)
+        if rng.random() < 0.35:      # negative indexing is allowed: the same point may be written -1 in one pair and n-1 in another
+            given = set(tuple((v - n) if rng.random() < 0.5 else v for v in p_) for p_ in pairs)
+        ys, yw = mm.impose_collapse(set(given), list(x), list(w))
+        obs.desc['pairs'] = sorted(pairs); obs.desc['pairs_as_given'] = sorted(given)
         # connected groups: one member keeps the group's total weight, the others are zero and share its position
         parent = list(range(n))
         def find(i):
